@@ -329,7 +329,6 @@ common::register! {
     q_sdes_item = sdes_item => 320,
     q_sdes_1x2 = sdes::<_, 1, 2> => 4,
     q_sdes_2x1 = sdes::<_, 2, 1> => 4,
-    t_sdes_31x0 = sdes::<_, 31, 0> => 33,
     t_sdes_32x0 = sdes::<_, 32, 0> => 34,
     q_fb_pli = fb::<_, 0> => 2,
     q_fb_sli = fb::<_, 1> => 3,
